@@ -25,6 +25,8 @@ type C18Case struct {
 	Files []string `json:"files,omitempty"` // assembly file names present (below regex-assembly/)
 	// root
 	Roots []string `json:"roots,omitempty"` // directories (relative to the sandbox) that contain regex-assembly
+	// LinkAsm: in every root, regex-assembly is a symbolic link to a directory kept next to it
+	LinkAsm bool `json:"link_asm,omitempty"`
 	Dirs  []string `json:"dirs,omitempty"`  // further plain directories
 	Start string   `json:"start,omitempty"` // directory the -d argument / cwd refers to (relative to the sandbox)
 	Via   string   `json:"via,omitempty"`   // d-abs | d-rel | cwd
@@ -107,6 +109,7 @@ func genC18Root(t *rapid.T) C18Case {
 	starts = append(starts, all[0]+"/does/not/exist")
 	c.Start = rapid.SampledFrom(starts).Draw(t, "start")
 	c.Via = rapid.SampledFrom([]string{"d-abs", "d-abs", "d-rel", "d-rel-dots", "cwd", "d-abs-slash", "d-abs-unclean", "d-rel-slash"}).Draw(t, "via")
+	c.LinkAsm = rapid.IntRange(0, 3).Draw(t, "linkasm") == 0
 	return c
 }
 
@@ -441,7 +444,18 @@ func checkC18Root(c C18Case) Outcome {
 		tree["w/"+d+"/"] = ""
 	}
 	word := func(r string) string { return "root_" + strings.ReplaceAll(r, "/", "_") }
+	if c.LinkAsm {
+		out.Labels = append(out.Labels, "regex-assembly-is-a-symbolic-link")
+	}
 	for _, r := range c.Roots {
+		if c.LinkAsm {
+			tree["w/"+r+"/assembly-store/932100.ra"] = word(r) + "\n"
+			tree["w/"+r+"/assembly-store/include/"] = ""
+			tree["w/"+r+"/regex-assembly"] = cli.SymlinkPrefix + "assembly-store"
+			tree["w/"+r+"/rules/"] = ""
+			tree["w/"+r+"/tests/regression/tests/"] = ""
+			continue
+		}
 		tree["w/"+r+"/regex-assembly/932100.ra"] = word(r) + "\n"
 		tree["w/"+r+"/regex-assembly/include/"] = ""
 		tree["w/"+r+"/rules/"] = ""
